@@ -1,5 +1,6 @@
 import UscxmlVerif.Spec.Nesting
 import UscxmlVerif.Model.Api
+import UscxmlVerif.Proofs.Flags
 /-!
 # The notifications of the engine models are well nested
 
@@ -7,7 +8,7 @@ import UscxmlVerif.Model.Api
 drive the nesting automaton of `Spec.Nesting` from stack `stk` to stack `stk'`.
 -/
 namespace UscxmlVerif.Proofs.Nest
-open UscxmlVerif UscxmlVerif.Model UscxmlVerif.Model.Large UscxmlVerif.Spec.Nesting
+open UscxmlVerif UscxmlVerif.Model UscxmlVerif.Model.Large UscxmlVerif.Spec.Nesting UscxmlVerif.Proofs.Flags
 
 theorem runT_append (s : List Frame) (a b : List Tok) :
     runT s (a ++ b) = (runT s a).bind (fun s' => runT s' b) := by
@@ -433,126 +434,156 @@ theorem fast_selectAndStep_nest (c : Chart) (e : EState) (ev : Option String) :
   · refine Nest.trans (nest_same [] _ _ hs) (Nest.trans (nest_emit [] [.micro 0] _ .bm rfl) ?_)
     exact fast_microstep_nest c _ _ _ _ _
 
-/-- the bottom of the stack between steps: empty, or the mark that a stable-configuration notice was the last thing
-that happened - which the engine's flags must agree with (it will not issue another one before an event or a
-micro-step) -/
+/-- the bottom of the stack between steps: empty - and then the engine still owes the stable-configuration notice of the
+macrostep it is in (or has not started) - or the mark that the notice was the last thing that happened, which the engine's
+flags must agree with: it will not issue another one before an event or a micro-step, and it reports IDLE only then -/
 def Base (e : EState) (stk : List Frame) : Prop :=
-  stk = [] ∨ (stk = [.stable] ∧ e.spontaneous = false ∧ (e.stable = true ∨ e.pristine = true))
+  (e.pristine = true → e.stable = false) ∧
+  ((stk = [] ∧ e.stable = false) ∨ (stk = [.stable] ∧ e.spontaneous = false ∧ (e.stable = true ∨ e.pristine = true)))
 
 theorem base_bm {e : EState} {stk : List Frame} (h : Base e stk) : stepTok stk .bm = some [.micro 0] := by
-  rcases h with h | ⟨h, _, _⟩ <;> subst h <;> rfl
+  rcases h.2 with ⟨h, _⟩ | ⟨h, _, _⟩ <;> subst h <;> rfl
 
 theorem base_bpe {e : EState} {stk : List Frame} (h : Base e stk) (ev : String) : stepTok stk (.bpe ev) = some [] := by
-  rcases h with h | ⟨h, _, _⟩ <;> subst h <;> rfl
+  rcases h.2 with ⟨h, _⟩ | ⟨h, _, _⟩ <;> subst h <;> rfl
 
 /-- the finalising step: `bcomp`, the exit handlers, `acomp` -/
 theorem nest_completion (c : Chart) (cfg : List Nat) (l : List Nat) (x : XS) {e : EState} {stk : List Frame} (h : Base e stk) :
     Nest stk stk x ((l.foldl (fun x s => execBlocks c cfg (st c s).onexit x) (x.emit .bcomp)).emit .acomp) := by
-  have h1 : stepTok stk .bcomp = some (.completion :: stk) := by rcases h with h | ⟨h, _, _⟩ <;> subst h <;> rfl
+  have h1 : stepTok stk .bcomp = some (.completion :: stk) := by rcases h.2 with ⟨h, _⟩ | ⟨h, _, _⟩ <;> subst h <;> rfl
   refine Nest.trans (nest_emit stk (.completion :: stk) x .bcomp h1) (Nest.trans ?_ (nest_emit (.completion :: stk) stk _ .acomp rfl))
   exact nest_foldl (.completion :: stk) _ (fun x s => nest_execBlocks c cfg (.completion :: stk) trivial _ x) l _
 
-/-- one call of the engine's step function: the notifications it adds take the automaton from one resting
-stack to another, and the flags keep describing the stack -/
+/-- a change of the engine state: the notifications it adds take the automaton from one resting stack to another, and
+the flags keep describing the stack -/
 def StepNest (e e' : EState) : Prop :=
   ∀ stk, Base e stk → ∃ stk', Base e' stk' ∧ Nest stk stk' e.x e'.x
 
-theorem large_step_nest (c : Chart) (e : EState) : StepNest e (Large.step c e).1 := by
+/-- one call of the engine's step function: as `StepNest`, and IDLE is returned only on the mark of a
+stable-configuration notice -/
+def StepNestR (e : EState) (r : EState × Ret) : Prop :=
+  ∀ stk, Base e stk → ∃ stk', Base r.1 stk' ∧ Nest stk stk' e.x r.1.x ∧ (r.2 = .idle → stk' = [.stable])
+
+theorem large_step_nest (c : Chart) (e : EState) : StepNestR e (Large.step c e) := by
   intro stk hb
   unfold Large.step
   by_cases hf : e.finished = true
-  · rw [if_pos hf]; exact ⟨stk, hb, Nest.refl stk _⟩
+  · rw [if_pos hf]; exact ⟨stk, hb, Nest.refl stk _, fun h => by cases h⟩
   · rw [if_neg hf]
     by_cases ht : e.topLevelFinal = true
-    · rw [if_pos ht]; exact ⟨stk, hb, nest_completion c _ _ _ hb⟩
+    · rw [if_pos ht]; exact ⟨stk, hb, nest_completion c _ _ _ hb, fun h => by cases h⟩
     · rw [if_neg ht]
       by_cases hp : e.pristine = true
       · rw [if_pos hp]
-        exact ⟨[], Or.inl rfl, Nest.trans (nest_emit stk [.micro 0] e.x .bm (base_bm hb)) (large_microstep_nest c _ _ _ _ _)⟩
+        have hst : e.stable = false := hb.1 hp
+        refine ⟨[], ⟨fun _ => ?_, Or.inl ⟨rfl, ?_⟩⟩, Nest.trans (nest_emit stk [.micro 0] e.x .bm (base_bm hb)) (large_microstep_nest c _ _ _ _ _), fun h => by cases h⟩
+        · rw [large_microstep_stable]; exact hst
+        · rw [large_microstep_stable]; exact hst
       · rw [if_neg hp]
         by_cases hs : e.spontaneous = true
         · rw [if_pos hs]
           have h0 : stk = [] := by
-            rcases hb with h | ⟨_, h, _⟩
+            rcases hb.2 with ⟨h, _⟩ | ⟨_, h, _⟩
             · exact h
             · rw [hs] at h; cases h
           subst h0
-          exact ⟨[], Or.inl rfl, large_selectAndStep_nest c e none⟩
+          refine ⟨[], ⟨fun _ => large_selectAndStep_stable c e none, Or.inl ⟨rfl, large_selectAndStep_stable c e none⟩⟩, large_selectAndStep_nest c e none, fun h => ?_⟩
+          rw [large_selectAndStep_ret] at h; cases h
         · rw [if_neg hs]
           split
           · rename_i ev rest _
-            refine ⟨[], Or.inl rfl, Nest.trans ?_ (large_selectAndStep_nest c _ (some ev))⟩
-            exact nest_emit stk [] _ (.bpe ev) (base_bpe hb ev)
+            refine ⟨[], ⟨fun _ => large_selectAndStep_stable c _ _, Or.inl ⟨rfl, large_selectAndStep_stable c _ _⟩⟩, Nest.trans ?_ (large_selectAndStep_nest c _ (some ev)), fun h => ?_⟩
+            · exact nest_emit stk [] _ (.bpe ev) (base_bpe hb ev)
+            · rw [large_selectAndStep_ret] at h; cases h
           · simp only
             split
             · rename_i hst
               have h0 : stk = [] := by
-                rcases hb with h | ⟨_, _, h | h⟩
+                rcases hb.2 with ⟨h, _⟩ | ⟨_, _, h | h⟩
                 · exact h
                 · rw [h] at hst; cases hst
                 · exact absurd h hp
               subst h0
-              refine ⟨[.stable], Or.inr ⟨rfl, ?_, Or.inl rfl⟩, nest_emit [] [.stable] _ .st rfl⟩
+              refine ⟨[.stable], ⟨fun h => absurd h hp, Or.inr ⟨rfl, ?_, Or.inl rfl⟩⟩, nest_emit [] [.stable] _ .st rfl, fun h => by cases h⟩
               simpa using hs
-            · split
+            · rename_i hst
+              have hst' : e.stable = true := by simpa using hst
+              have htop : stk = [.stable] := by
+                rcases hb.2 with ⟨_, h⟩ | ⟨h, _, _⟩
+                · rw [h] at hst'; cases hst'
+                · exact h
+              split
               · split
                 · split
-                  · exact ⟨stk, hb, Nest.refl stk _⟩
-                  · exact ⟨stk, hb, Nest.refl stk _⟩
+                  · exact ⟨stk, hb, Nest.refl stk _, fun h => by cases h⟩
+                  · exact ⟨stk, hb, Nest.refl stk _, fun _ => htop⟩
                 · rename_i ev rest _ _
-                  refine ⟨[], Or.inl rfl, Nest.trans ?_ (large_selectAndStep_nest c _ (some ev))⟩
-                  exact nest_emit stk [] _ (.bpe ev) (base_bpe hb ev)
+                  refine ⟨[], ⟨fun _ => large_selectAndStep_stable c _ _, Or.inl ⟨rfl, large_selectAndStep_stable c _ _⟩⟩, Nest.trans ?_ (large_selectAndStep_nest c _ (some ev)), fun h => ?_⟩
+                  · exact nest_emit stk [] _ (.bpe ev) (base_bpe hb ev)
+                  · rw [large_selectAndStep_ret] at h; cases h
               · split
-                · exact ⟨stk, hb, Nest.refl stk _⟩
-                · exact ⟨stk, hb, Nest.refl stk _⟩
+                · exact ⟨stk, hb, Nest.refl stk _, fun h => by cases h⟩
+                · exact ⟨stk, hb, Nest.refl stk _, fun _ => htop⟩
 
-theorem fast_step_nest (c : Chart) (e : EState) : StepNest e (Fast.step c e).1 := by
+theorem fast_step_nest (c : Chart) (e : EState) : StepNestR e (Fast.step c e) := by
   intro stk hb
   unfold Fast.step
   by_cases hf : e.finished = true
-  · rw [if_pos hf]; exact ⟨stk, hb, Nest.refl stk _⟩
+  · rw [if_pos hf]; exact ⟨stk, hb, Nest.refl stk _, fun h => by cases h⟩
   · rw [if_neg hf]
     by_cases ht : e.topLevelFinal = true
-    · rw [if_pos ht]; exact ⟨stk, hb, nest_completion c _ _ _ hb⟩
+    · rw [if_pos ht]; exact ⟨stk, hb, nest_completion c _ _ _ hb, fun h => by cases h⟩
     · rw [if_neg ht]
       by_cases hp : e.pristine = true
       · rw [if_pos hp]
-        exact ⟨[], Or.inl rfl, Nest.trans (nest_emit stk [.micro 0] e.x .bm (base_bm hb)) (fast_microstep_nest c _ _ _ _ _)⟩
+        have hst : e.stable = false := hb.1 hp
+        refine ⟨[], ⟨fun _ => ?_, Or.inl ⟨rfl, ?_⟩⟩, Nest.trans (nest_emit stk [.micro 0] e.x .bm (base_bm hb)) (fast_microstep_nest c _ _ _ _ _), fun h => by cases h⟩
+        · rw [fast_microstep_stable]; exact hst
+        · rw [fast_microstep_stable]; exact hst
       · rw [if_neg hp]
         by_cases hs : e.spontaneous = true
         · rw [if_pos hs]
           have h0 : stk = [] := by
-            rcases hb with h | ⟨_, h, _⟩
+            rcases hb.2 with ⟨h, _⟩ | ⟨_, h, _⟩
             · exact h
             · rw [hs] at h; cases h
           subst h0
-          exact ⟨[], Or.inl rfl, fast_selectAndStep_nest c e none⟩
+          refine ⟨[], ⟨fun _ => fast_selectAndStep_stable c e none, Or.inl ⟨rfl, fast_selectAndStep_stable c e none⟩⟩, fast_selectAndStep_nest c e none, fun h => ?_⟩
+          rw [fast_selectAndStep_ret] at h; cases h
         · rw [if_neg hs]
           split
           · rename_i ev rest _
-            refine ⟨[], Or.inl rfl, Nest.trans ?_ (fast_selectAndStep_nest c _ (some ev))⟩
-            exact nest_emit stk [] _ (.bpe ev) (base_bpe hb ev)
+            refine ⟨[], ⟨fun _ => fast_selectAndStep_stable c _ _, Or.inl ⟨rfl, fast_selectAndStep_stable c _ _⟩⟩, Nest.trans ?_ (fast_selectAndStep_nest c _ (some ev)), fun h => ?_⟩
+            · exact nest_emit stk [] _ (.bpe ev) (base_bpe hb ev)
+            · rw [fast_selectAndStep_ret] at h; cases h
           · simp only
             split
             · rename_i hst
               have h0 : stk = [] := by
-                rcases hb with h | ⟨_, _, h | h⟩
+                rcases hb.2 with ⟨h, _⟩ | ⟨_, _, h | h⟩
                 · exact h
                 · rw [h] at hst; cases hst
                 · exact absurd h hp
               subst h0
-              refine ⟨[.stable], Or.inr ⟨rfl, ?_, Or.inl rfl⟩, nest_emit [] [.stable] _ .st rfl⟩
+              refine ⟨[.stable], ⟨fun h => absurd h hp, Or.inr ⟨rfl, ?_, Or.inl rfl⟩⟩, nest_emit [] [.stable] _ .st rfl, fun h => by cases h⟩
               simpa using hs
-            · split
+            · rename_i hst
+              have hst' : e.stable = true := by simpa using hst
+              have htop : stk = [.stable] := by
+                rcases hb.2 with ⟨_, h⟩ | ⟨h, _, _⟩
+                · rw [h] at hst'; cases hst'
+                · exact h
+              split
               · split
                 · split
-                  · exact ⟨stk, hb, Nest.refl stk _⟩
-                  · exact ⟨stk, hb, Nest.refl stk _⟩
+                  · exact ⟨stk, hb, Nest.refl stk _, fun h => by cases h⟩
+                  · exact ⟨stk, hb, Nest.refl stk _, fun _ => htop⟩
                 · rename_i ev rest _ _
-                  refine ⟨[], Or.inl rfl, Nest.trans ?_ (fast_selectAndStep_nest c _ (some ev))⟩
-                  exact nest_emit stk [] _ (.bpe ev) (base_bpe hb ev)
+                  refine ⟨[], ⟨fun _ => fast_selectAndStep_stable c _ _, Or.inl ⟨rfl, fast_selectAndStep_stable c _ _⟩⟩, Nest.trans ?_ (fast_selectAndStep_nest c _ (some ev)), fun h => ?_⟩
+                  · exact nest_emit stk [] _ (.bpe ev) (base_bpe hb ev)
+                  · rw [fast_selectAndStep_ret] at h; cases h
               · split
-                · exact ⟨stk, hb, Nest.refl stk _⟩
-                · exact ⟨stk, hb, Nest.refl stk _⟩
+                · exact ⟨stk, hb, Nest.refl stk _, fun h => by cases h⟩
+                · exact ⟨stk, hb, Nest.refl stk _, fun _ => htop⟩
 
 end UscxmlVerif.Proofs.Nest
